@@ -78,16 +78,22 @@ func (f *F) Operand(t *rapid.T, label string) (*big.Int, string) {
 	switch rapid.IntRange(0, 9).Draw(t, label+".k") {
 	case 0, 1:
 		// multiples of P and their neighbours
-		kmax := new(big.Int).Div(new(big.Int).Sub(Pow2(f.Bits), one), f.P).Int64()
+		quo := new(big.Int).Div(new(big.Int).Sub(Pow2(f.Bits), one), f.P)
+		kmax := int64(8)
+		if quo.IsInt64() && quo.Int64() < kmax {
+			kmax = quo.Int64()
+		}
 		if f.Reduced {
 			kmax = 1
 		}
-		if kmax > 8 {
-			kmax = 8
+		kb := big.NewInt(int64(rapid.IntRange(0, int(kmax)).Draw(t, label+".mult")))
+		if !f.Reduced && quo.BitLen() > 8 && rapid.Bool().Draw(t, label+".bigmult") {
+			// wide domains (e.g. 512-bit inputs of a 253-bit modulus): large multipliers too
+			kb = vlib.Limbs(t, (quo.BitLen()+63)/64, f.C, label+".km")
+			kb.Mod(kb, new(big.Int).Add(quo, one))
 		}
-		k := int64(rapid.IntRange(0, int(kmax)).Draw(t, label+".mult"))
 		d := int64(rapid.SampledFrom([]int{0, 0, 0, 1, -1, 2, -2, 18, 19, 20, -19, 37, 38, 39, -38}).Draw(t, label+".delta"))
-		v = new(big.Int).Mul(f.P, big.NewInt(k))
+		v = new(big.Int).Mul(f.P, kb)
 		v.Add(v, big.NewInt(d))
 		if v.Sign() < 0 {
 			v.Neg(v)
@@ -174,6 +180,17 @@ func DrawAlias3(t *rapid.T) int {
 // DrawAlias2 draws an alias pattern for a unary operation f(z, x): none or z=x.
 func DrawAlias2(t *rapid.T) int {
 	return rapid.SampledFrom([]int{AliasNone, AliasNone, AliasZX}).Draw(t, "alias")
+}
+
+// Patterns returns the alias patterns to evaluate for a drawn pattern: the
+// un-aliased call first, then the aliased one. A failure that shows only in
+// the aliased call is therefore known to be caused by the aliasing (Case.Fail
+// gives it a key of its own).
+func Patterns(alias int) []int {
+	if alias == AliasNone {
+		return []int{AliasNone}
+	}
+	return []int{AliasNone, alias}
 }
 
 // Bin runs f(z,x,y) under the alias pattern. For AliasXY/AliasAll the caller
